@@ -77,6 +77,7 @@ type Obl struct {
 	Model   string
 	SmtSize int
 	File    string
+	LiteSat bool // the weakened query has a model (candidate counterexample)
 }
 
 type exit struct {
